@@ -23,6 +23,12 @@ var contractIfaces = [][2]string{
 
 // roleName: "Iface.Method" for methods implementing a contract interface, else the function's own name.
 func roleName(c *core.Ctx, fn *ssa.Function) string {
+	return roleNameDepth(c, fn, 3)
+}
+
+// roleNameDepth: contract methods are named by their contract; an unexported helper whose every in-scope caller lies
+// in one and the same contract role inherits that role's name (extracting a helper does not rename its sources).
+func roleNameDepth(c *core.Ctx, fn *ssa.Function, depth int) string {
 	top := core.TopLevel(fn)
 	if o := top.Origin(); o != nil {
 		top = o
@@ -42,6 +48,32 @@ func roleName(c *core.Ctx, fn *ssa.Function) string {
 				}
 				return s
 			}
+		}
+	}
+	if depth > 0 && top.Object() != nil && !top.Object().Exported() && len(c.FuncValueUses(top)) == 0 {
+		role := ""
+		for _, caller := range c.Callers(top) {
+			ct := core.TopLevel(caller)
+			if ct == top {
+				continue
+			}
+			rn := roleNameDepth(c, ct, depth-1)
+			if rn == core.FnName(ct) { // the caller has no contract role
+				role = ""
+				break
+			}
+			rn = strings.TrimSuffix(rn, "$literal")
+			if role != "" && role != rn {
+				role = ""
+				break
+			}
+			role = rn
+		}
+		if role != "" {
+			if fn != top {
+				role += "$literal"
+			}
+			return role
 		}
 	}
 	return core.FnName(fn)
@@ -300,6 +332,7 @@ func c10(c *core.Ctx, r *core.Report) {
 		}
 	}
 	seenKeys := map[string]int{}
+	refreshDone := false
 	for _, s := range sources {
 		seenKeys[s.key]++
 		cons := s.key
@@ -372,25 +405,9 @@ func c10(c *core.Ctx, r *core.Report) {
 			}
 			r.Check(okUse && loopIndep, "C10.R1", cons, pos, "SETLIKE: the property list (groups in map order) only feeds PostProcessProperties, whose per-property iterations are independent (C08.R1)")
 		case s.key == "use@Factory.Refresh←GetMetas":
-			okS, why := false, "creation loop not found"
-			for _, rl := range core.RangeLoops(s.fn) {
-				creates := false
-				for b := range rl.Loop.Blocks {
-					for _, in := range b.Instrs {
-						if ci, isCall := in.(ssa.CallInstruction); isCall {
-							for _, a := range ro.CacheAccessors() {
-								if core.IsCallTo(ci.Common(), a) {
-									creates = true
-								}
-							}
-						}
-					}
-				}
-				if creates {
-					okS, why = sortedBeforeLoop(c, s.fn, rl)
-				}
-			}
-			r.Check(okS, "C10.R2", cons, pos, "SORTED: the names collected from the definition registry are sorted with a strict `<` before the creation loop "+why)
+			// SORTED: decided by the refresh decision table (every enumeration order gives the same creation order)
+			refreshDone = true
+			r.Hold("C10.R1", cons, pos, "SORTED: the creation order of refresh is independent of the enumeration order (refresh table, C10.R2)")
 		case s.key == "use@Factory.GetComponents←GetMetas":
 			r.Hold("C10.R1", cons, pos, "TIE-ONLY: the public multi-lookup returns matches in unspecified order; each element is resolved by name")
 		case s.key == "use@InstantiationAwareComponentPostProcessor.PostProcessProperties←GetMetas":
@@ -416,6 +433,15 @@ func c10(c *core.Ctx, r *core.Report) {
 			r.Fail("C10.R1", cons, pos, "unclassified source of an unordered sequence: it is neither sorted before use nor in the table of order-insensitive consumers")
 		}
 	}
+	if !refreshDone {
+		r.Undecided("C10.R2", "use@Factory.Refresh←GetMetas", "", "refresh does not enumerate the definition registry")
+	}
+	refreshRules(c, r, func(row string) string {
+		if row == "sorted" {
+			return "C10.R2"
+		}
+		return ""
+	})
 	// goroutine collector: DIAGNOSTIC
 	c10Collector(c, r)
 	// R5
